@@ -33,7 +33,7 @@ CHECKS = {
          "DESIGN.md §5 C06"),
  "C07": ("runtime monitoring: differential diagnostics + frame-embedded statement; silent acceptance judged by decoder / legality rules",
          "Exploration: every mnemonic of the grammar (read from the tree) x operand lists of 0..3 operands over 17 operand kinds x modes (thorough: all 1- and 2-operand shapes), data directives with undefined symbols, pool instances; a statement accepted silently must be represented (non-empty, right location counter, right instruction) and must not be illegal or refer to undefined symbols.",
-         "Legality is rule-based (operand count of fixed-arity mnemonics, string operands, undefined symbols); forms outside the instance model are judged by operation name only. Findings F701-F711.",
+         "Legality is rule-based (operand count of fixed-arity mnemonics, string operands, undefined symbols); forms outside the instance model are judged by operation name and operand presence. The premise is taken literally: a refusal that is only worded at info level (exit 0, no error-level line) does not excuse a missing statement (kind prefix quiet-refusal:). Findings F701-F719, exact signatures in KNOWN_SIGNATURES/C07.txt.",
          "DESIGN.md §5 C07"),
  "C08": ("runtime monitoring: strict COFF layout validator + Go debug/pe as independent reader over generated objects",
          "Exploration: seeded WCOFF programs (.text empty to >64 KiB, GLOBAL lists with names of length 1..40 incl. 8/9, undefined/duplicate/prefix-related names, 1-4 GLOBAL statements, [FILE] names of length 0..64).",
